@@ -272,10 +272,18 @@ def ddmin_list(items):
 
 
 # ----------------------------------------------------------------- replay
+def scratch_dir():
+    """Where a run against a scratch copy of the repo (VERIF_REPO) leaves its files: one
+    directory per scratch copy, so that concurrent sensitivity runs do not collide."""
+    from simkit import boot
+    tag = hashlib.sha256(boot.REPO.encode()).hexdigest()[:10]
+    return os.path.join(os.environ.get("VERIF_SCRATCH_EVIDENCE", "/dev/shm"), "verif_scratch_" + tag)
+
+
 def write_replay(prop, scen, v, seed, digest):
     from simkit import boot
     d = os.path.join(VERIF_DIR, "replays") if boot.REPO == "/repo" else \
-        os.path.join(os.environ.get("VERIF_SCRATCH_EVIDENCE", "/dev/shm"), "verif_scratch_replays")
+        os.path.join(scratch_dir(), "replays")
     os.makedirs(d, exist_ok=True)
     name = "%s-%s-%d.json" % (prop, v["class"].split(".", 1)[-1], seed)
     path = os.path.join(d, name)
@@ -562,7 +570,7 @@ def write_evidence(prop, agg):
     if boot.REPO != "/repo":
         # a run against a scratch copy (sensitivity experiments) says nothing about /repo:
         # its evidence goes next to the scratch results, never into evidence/
-        d = os.path.join(os.environ.get("VERIF_SCRATCH_EVIDENCE", "/dev/shm"), "verif_scratch_evidence")
+        d = os.path.join(scratch_dir(), "evidence")
     else:
         d = os.path.join(VERIF_DIR, "evidence")
     os.makedirs(d, exist_ok=True)
